@@ -68,6 +68,9 @@ def _gen_op(rng, w, rate, n):
     if u < 0.88:
         return {"op": "concat", "f": _samples(rng, w, rng.randint(0, 5))}
     a, b = sorted((_time(rng, rate, n), _time(rng, rate, n)))
+    if rng.random() < 0.3:
+        # the whole recording, named exactly or by times that round to its two ends
+        a, b = rng.choice([0.0, 0.0, 0.25 / rate]), (n - rng.choice([0, 0, 0.25])) / rate
     return {"op": "subwav", "a": a, "b": b}
 
 
@@ -131,7 +134,10 @@ def run(case):
         def f():
             wav = _mk(case)
             recs = []
+            kept = []       # recordings a sub-recording was taken from, with their frames at that moment
             for o in case["ops"]:
+                if o["op"] == "subwav":
+                    kept.append((wav, bytes(wav.frames)))
                 if o["op"] == "insert":
                     wav.insert(o["t"], _enc(o["f"], w))
                 elif o["op"] == "delete":
@@ -142,6 +148,9 @@ def run(case):
                     wav.concatenate(_enc(o["f"], w))
                 else:
                     wav = wav.getSubwav(o["a"], o["b"])
+                for src, fr in kept:
+                    if bytes(src.frames) != fr:
+                        raise core.OffGrid("editing the recording returned by getSubwav changed the recording it was taken from")
                 recs.append({"bytes": _bytes_list(wav.frames), "duration": wav.duration})
             return recs
         return core.run_guarded(f)
